@@ -4,11 +4,12 @@ from pathlib import Path
 
 VERIF = Path(__file__).resolve().parent.parent
 PAIR_TECH = ("TLA+ closed model (Cfdp.tla = SrcCore + DstCore transducers + faulty links + clock + users) checked by TLC; "
-             "TLC-generated schedules replayed into the real handlers; recorded executions validated against the transducers and "
+             "TLC-generated schedules (at least one per behavioural signature the model exhibits) replayed into the real handlers; "
+             "recorded executions validated against the transducers and "
              "judged by TLA+ monitors (CfdpProps.tla) evaluated by TLC")
 SOLO_TECH = ("TLA+ single-handler adversarial model (Solo.tla over the SrcCore / DstCore transducers) with the property monitor as "
-             "TLC invariant of every input sequence up to the depth bound; TLC-enumerated sequences replayed into the real "
-             "handler; recorded executions validated against the transducers and judged by the same TLA+ monitor")
+             "TLC invariant of every input sequence up to the depth bound; TLC-enumerated sequences (at least one per behavioural "
+             "signature of the model, then a seeded sample) replayed into the real handler; recorded executions validated against the transducers and judged by the same TLA+ monitor")
 CLAIMED = {
     "C17": dict(
         text="FilestoreOps.tla is a reference model of the documented semantics of the native filestore's operations (create, delete, "
